@@ -103,6 +103,63 @@ fn part_family(p: &str) -> String {
     s
 }
 
+/// Canonical form of a reference list for comparison: quoting of a sheet prefix is optional in the formula
+/// grammar ('Sheet1'!A1 == Sheet1!A1), so every quoted prefix is replaced by its unquoted, un-doubled name.
+pub fn norm_sheet_quotes(s: &str) -> String {
+    let cs: Vec<char> = s.chars().collect();
+    let mut out = String::new();
+    let mut i = 0;
+    while i < cs.len() {
+        if cs[i] == '"' {
+            // string literal: copy verbatim
+            out.push('"');
+            i += 1;
+            while i < cs.len() {
+                out.push(cs[i]);
+                if cs[i] == '"' {
+                    if i + 1 < cs.len() && cs[i + 1] == '"' {
+                        out.push('"');
+                        i += 2;
+                        continue;
+                    }
+                    i += 1;
+                    break;
+                }
+                i += 1;
+            }
+            continue;
+        }
+        if cs[i] == '\'' {
+            // quoted sheet prefix?
+            let mut j = i + 1;
+            let mut name = String::new();
+            let mut closed = false;
+            while j < cs.len() {
+                if cs[j] == '\'' {
+                    if j + 1 < cs.len() && cs[j + 1] == '\'' {
+                        name.push('\'');
+                        j += 2;
+                        continue;
+                    }
+                    closed = true;
+                    j += 1;
+                    break;
+                }
+                name.push(cs[j]);
+                j += 1;
+            }
+            if closed && j < cs.len() && cs[j] == '!' {
+                out.push_str(&name);
+                i = j;
+                continue;
+            }
+        }
+        out.push(cs[i]);
+        i += 1;
+    }
+    out
+}
+
 pub struct Diff {
     pub clause: &'static str,
     pub symptom: String,
@@ -228,18 +285,18 @@ pub fn compare_model_p(model: &Value, p: &Value) -> Vec<Diff> {
     // defined names: (scope sheet index or null, name) -> text
     let mut mdn = std::collections::BTreeMap::new();
     for d in model["defined_names"].as_array().cloned().unwrap_or_default() {
-        mdn.insert((d["local"].to_string(), d["name"].as_str().unwrap_or("").to_string()), d["address"].as_str().unwrap_or("").to_string());
+        mdn.insert((d["local"].to_string(), d["name"].as_str().unwrap_or("").to_string()), norm_sheet_quotes(d["address"].as_str().unwrap_or("")));
     }
     for (si, m) in ms.iter().enumerate() {
         for d in m["defined_names"].as_array().cloned().unwrap_or_default() {
             // a sheet-held name with a local id is scoped to the sheet that holds it
             let scope = if d["local"].is_null() { "null".to_string() } else { si.to_string() };
-            mdn.insert((scope, d["name"].as_str().unwrap_or("").to_string()), d["address"].as_str().unwrap_or("").to_string());
+            mdn.insert((scope, d["name"].as_str().unwrap_or("").to_string()), norm_sheet_quotes(d["address"].as_str().unwrap_or("")));
         }
     }
     let mut pdn = std::collections::BTreeMap::new();
     for d in p["defined_names"].as_array().cloned().unwrap_or_default() {
-        pdn.insert((d["local"].to_string(), d["name"].as_str().unwrap_or("").to_string()), d["text"].as_str().unwrap_or("").to_string());
+        pdn.insert((d["local"].to_string(), d["name"].as_str().unwrap_or("").to_string()), norm_sheet_quotes(d["text"].as_str().unwrap_or("")));
     }
     if model.get("defined_names").is_some() && mdn != pdn {
         let mk: Vec<_> = mdn.keys().cloned().collect();
